@@ -195,11 +195,19 @@ Involved(r, t) == Range(E(r, t).inv) \cup ({r.steps[t].c, r.steps[t].d} \ {0})
 IdsOf(r, t, S) == Flat([i \in Slots(r) |-> IF i \in S THEN O(r, t).cs[i][2] ELSE <<>>])
 LenOf(r, t, S) == SumSeq([i \in Slots(r) |-> IF i \in S THEN O(r, t).cs[i][3] ELSE 0])
 CapOf(r, t, S) == SumSeq([i \in Slots(r) |-> IF i \in S THEN O(r, t).cs[i][4] ELSE 0])
+\* memory owned by a container as it reports it: [start, start + capacity * element size) (owned slices, fixed and growable
+\* vectors, boxes; sized elements; -1 / -2 = unknown / dangling start, negative capacities = unknown / unlimited)
+OwnsMem(r, c) == ~Z(r) /\ c[1] \in {"B", "F", "V", "E"} /\ c[4] > 0 /\ c[6] >= 0
+Overlap(r, c1, c2) == c1[6] < c2[6] + c2[4] * r.esz /\ c2[6] < c1[6] + c1[4] * r.esz
 PartClauses(r, cx, t) ==
     IF t = 1 THEN {}
     ELSE LET o == O(r, t)  e == E(r, t)  S == Involved(r, t) IN
          \* independence: a slot that the operation does not involve is untouched (contents, length, capacity, buffer)
          {<<t, "other-part-changed", i>> : i \in {i \in Slots(r) \ S : o.cs[i] # O(r, t - 1).cs[i]}}
+         \* independence at the memory level: the capacity regions of two live containers never share a byte
+         \* (otherwise growing one part within its capacity overwrites the other)
+         \cup {<<t, "capacity-regions-overlap", i>> : i \in {i \in Slots(r) : OwnsMem(r, o.cs[i]) /\
+                    \E j \in Slots(r) : j # i /\ OwnsMem(r, o.cs[j]) /\ Overlap(r, o.cs[i], o.cs[j])}}
          \cup (IF (e.sp \/ (Op(r, t) = "merge" /\ cx.sy[t - 1])) /\ cx.sy[t - 1] /\ o.out = "ok"
                THEN (IF Z(r) THEN (IF LenOf(r, t, S) = LenOf(r, t - 1, S) THEN {} ELSE {<<t, "count-not-preserved", 0>>})
                      ELSE {<<t, "elements-not-partitioned", x>> :
